@@ -1231,7 +1231,7 @@ class MathOperations:
         nodes0to1 = NodeSample.closed_linspace(nptseval)
         for i in range(len(allknots) - 1):
             start, end = allknots[i : i + 2]
-            nodes = tuple(start + (end - start) * node for node in nodes0to1)
+            nodes = tuple((1 - node) * start + node * end for node in nodes0to1)
             allevalnodes[i * nptseval : (i + 1) * nptseval] = nodes
         allevalnodes = tuple(allevalnodes)
 
